@@ -776,7 +776,7 @@ impl<'tcx> Mono<'tcx> {
                         calls.push(J::O(vec![("bb", J::I(bb.index() as i128)), ("k", J::s("call")), ("to", J::N), ("why", J::s("normalize"))]));
                         continue;
                     };
-                    let mut c: Vec<(&'static str, J)> = vec![("bb", J::I(bb.index() as i128)), ("k", J::s("call"))];
+                    let mut c: Vec<(&'static str, J)> = vec![("bb", J::I(bb.index() as i128)), ("k", J::s("call")), ("cleanup", J::B(data.is_cleanup))];
                     match fty.kind() {
                         ty::FnDef(d, a) => {
                             c.push(("callee", J::S(dps(tcx, *d))));
@@ -833,7 +833,7 @@ impl<'tcx> Mono<'tcx> {
                 }
                 TerminatorKind::Drop { place, .. } => {
                     let pt = place.ty(&body.local_decls, tcx).ty;
-                    let mut c: Vec<(&'static str, J)> = vec![("bb", J::I(bb.index() as i128)), ("k", J::s("drop"))];
+                    let mut c: Vec<(&'static str, J)> = vec![("bb", J::I(bb.index() as i128)), ("k", J::s("drop")), ("cleanup", J::B(data.is_cleanup))];
                     match self.subst(&inst, env, pt) {
                         Some(t) => {
                             c.push(("ty", J::S(tys(t))));
